@@ -34,6 +34,10 @@ def must(w, m, prim="alice"):
         return False
     if w["mode"] == "gss":
         return m["k"] in ("gss_mic", "gss_token")
+    if w["offer"]:
+        # a probe was just answered with PK_OK: the signed request that follows, with every answer of the application
+        return m["k"] == "request" and m["method"] == "publickey" and m["user"] == prim \
+            and m["service"] == "ssh-connection" and m["sig"] in ("good", "alt_sid")
     return (not w["hist"]) and m["k"] == "request" and m["method"] == "gssapi-keyex" and m["user"] == prim \
         and m["service"] == "ssh-connection"
 
@@ -52,7 +56,7 @@ def run(c):
          name="as read: GSS branches hard-wire AUTH_SUCCESSFUL", workers=1, env=A.JVM)
     if not c.quick:
         for sw in ({"BlobOmits": "sid"}, {"BlobOmits": "user"}, {"BlobOmits": "service"}, {"BlobOmits": "alg"},
-                   {"BlobOmits": "key"}, {"KeepsResultAfterBadSig": True}, {"KeepsResultOnForeignLabel": True},
+                   {"BlobOmits": "key"}, {"KeepsResultAfterBadSig": True}, {"KeepsResultOnForeignLabel": True}, {"PkOkCachesApproval": True},
                    {"ProbeAuthenticates": True}):
             c.mc("ServerAuth", A.mc_cfg(A.consts(MaxDepth=4, ConfigSel={"plain"}, **sw)), expect="GrantNeedsApproval",
                  name="sensitivity: %s" % sw, workers=1, env=A.JVM)
@@ -61,7 +65,7 @@ def run(c):
     ph["model_checking"] = round(time.time() - t0, 1)
     other_sid = A.real_other_session_id()
     # ---- RP: spec -> code
-    jobs = A.replay_jobs(rnd, wits, msgs, 60 if c.quick else 3500, weight, lambda w, m: must(w, m, A.primary(msgs)), "rp")
+    jobs = A.replay_jobs(rnd, wits, msgs, 35 if c.quick else 3500, weight, lambda w, m: must(w, m, A.primary(msgs)), "rp")
     # every key type x every signature variant x approving / partially approving application, from the start
     for pk in sorted(A.PK_VARIANTS):
         label = ["label_other", "label_garbage"]
@@ -72,10 +76,24 @@ def run(c):
                 tail = {"k": "request", "user": "alice", "service": "ssh-connection", "method": "none", "cb": "fail"}
                 jobs.append({"bursts": [[r], [tail]], "opts": {}, "names": A.DEFAULT_NAMES,
                              "key": "pk|%s|%s|%s" % (pk, sig, cb), "sample": sig == "alt_sid" and pk == "ed25519"})
+    # probe, then the same key with a signature: the application's answer to the probe (incl. "partial", or an answer
+    # that has changed since) approves nothing - every key type in thorough, rotating in quick
+    pks = sorted(A.PK_VARIANTS)
+    n = 0
+    for pk in (pks if not c.quick else [None]):
+        for cb1 in ("ok", "partial", "fail"):
+            for cb2 in ("ok", "partial", "fail"):
+                for sig in (("good",) if c.quick and cb2 != "partial" else ("good", "alt_sid") if c.quick else ("good", "alt_sid", "label_garbage")):
+                    v = pk or pks[(c.seed + n) % len(pks)]
+                    n += 1
+                    rq = lambda cb, sg: {"k": "request", "user": "alice", "service": "ssh-connection", "method": "publickey",
+                                         "cb": cb, "sig": sg, "pk": v}
+                    jobs.append({"bursts": [[rq(cb1, "absent")], [rq(cb2, sig)]], "opts": {}, "names": A.DEFAULT_NAMES,
+                                 "key": "probe-sign|%s|%s|%s|%s" % (v, cb1, cb2, sig), "sample": cb1 == "partial" and cb2 == "ok" and n < 40})
     traces = A.execute(c, jobs, other_sid, "TLC-generated")
     ph["replay"] = round(time.time() - t0, 1)
     # ---- TV: code -> spec
-    jobs = [A.random_job(rnd, rnd.randint(1, 12), {"ok": 0.25, "gss": 0.6}, "tv") for _ in range(60 if c.quick else 2000)]
+    jobs = [A.random_job(rnd, rnd.randint(1, 12), {"ok": 0.25, "gss": 0.6}, "tv") for _ in range(45 if c.quick else 2000)]
     traces += A.execute(c, jobs, other_sid, "random")
     ph["random"] = round(time.time() - t0, 1)
     A.validate(c, traces, A.C14_CLAUSES)
